@@ -22,7 +22,7 @@ echo "## demo with patch (expect FAIL)" >> $LOG
 PATCHED_FAIL=$(sed -n '/## demo with patch/,$p' $LOG | grep -c "test result: FAILED")
 git -C $WT checkout -q -- . ; git -C $WT apply $OUT/patch.diff
 echo "## existing tests of $PKG with patch (expect all pass)" >> $LOG
-( cd $WT && timeout 7200 cargo test --offline -p $PKG --lib 2>&1 | grep -E "test result|FAILED|failed" | head -20 ) >> $LOG
+( cd $WT && timeout 7200 cargo test --offline -p $PKG ${FEAT:-} --lib 2>&1 | grep -E "test result|FAILED|failed" | head -20 ) >> $LOG
 SUITE_FAIL=$(sed -n '/## existing tests/,$p' $LOG | grep -c "FAILED")
 echo "SUMMARY id=$ID pristine_pass=$PRISTINE patched_fail=$PATCHED_FAIL suite_failures=$SUITE_FAIL" | tee -a $LOG
 git -C $WT checkout -q -- . ; git -C $WT clean -fdq -e target
